@@ -896,7 +896,9 @@ def configs(tier):
     L = 4 if tier == 'quick' else 5
     main = ('dictutils.OrderedMultiDict', (0, 1, 2), (0, 1), (0, 1), L, False)
     kw = ('dictutils.OrderedMultiDict', ('a', 'b'), (0, 1), (0, 1, None), L, True)
-    out = [main, kw]
+    # None as key *and* as value: sentinel / fill values of the implementation must not be confused with data
+    nonekv = ('dictutils.OrderedMultiDict', (None, 'a'), (None, 1), (None, 1), 3 if tier == 'quick' else 4, False)
+    out = [main, kw, nonekv]
     if tier == 'quick':
         out.append(('urlutils.QueryParamDict', (0, 1, 2), (0, 1), (0, 1), 3, False))
     else:
